@@ -177,3 +177,22 @@ func ga_ExpMsm(p *EdwardsPoint, staticScalars []*scalar.Scalar, staticPoints []*
 	SetPid(p, acc)
 	return p
 }
+
+func GMul(s, p verif.BV) verif.BV { return verif.UFBV("ed_mul", 256, s, p) }
+func GCofactor(p verif.BV) verif.BV { return verif.UFBV("ed_mul_by_cofactor", 256, p) }
+
+//verif:contract for=(*curve.EdwardsPoint).Mul group=gapi
+func ga_PtMul(p, point *EdwardsPoint, s *scalar.Scalar) *EdwardsPoint {
+	v := GMul(scalarVal(s), Pid(point))
+	verif.Havoc(p)
+	SetPid(p, v)
+	return p
+}
+
+//verif:contract for=(*curve.EdwardsPoint).MulByCofactor group=gapi
+func ga_Cofactor(p, t *EdwardsPoint) *EdwardsPoint {
+	v := GCofactor(Pid(t))
+	verif.Havoc(p)
+	SetPid(p, v)
+	return p
+}
